@@ -1470,10 +1470,16 @@ impl Relation {
     pub fn architectures(&self) -> Option<impl Iterator<Item = String> + '_> {
         let architectures = self.0.children().find(|n| n.kind() == ARCHITECTURES)?;
 
-        Some(architectures.children_with_tokens().filter_map(|node| {
+        // A negated architecture ("!amd64") is a NOT token followed by an IDENT token.
+        let mut negated = false;
+        Some(architectures.children_with_tokens().filter_map(move |node| {
             let token = node.as_token()?;
-            if token.kind() == IDENT {
-                Some(token.text().to_string())
+            if token.kind() == NOT {
+                negated = true;
+                None
+            } else if token.kind() == IDENT {
+                let prefix = if std::mem::take(&mut negated) { "!" } else { "" };
+                Some(format!("{}{}", prefix, token.text()))
             } else {
                 None
             }
